@@ -648,11 +648,35 @@ pub fn tokens(prog: &GProg, trailing: bool) -> Vec<String> {
         p.nl();
         blocks.push(take(&mut p, m));
     }
-    // rotate the block order (outputs keep their relative order, which is what the transaction preserves)
-    if !blocks.is_empty() {
-        let r = prog.body_rotation % blocks.len();
-        blocks.rotate_left(r);
-    }
+    // reorder the blocks; outputs keep their relative order, which is what the transaction preserves
+    let is_output = |b: &Vec<String>| b.first().map(|t| t == "output").unwrap_or(false);
+    let (outs, others): (Vec<Vec<String>>, Vec<Vec<String>>) = blocks.into_iter().partition(is_output);
+    let blocks: Vec<Vec<String>> = match prog.body_rotation % 4 {
+        0 => {
+            // source order of the generator: everything else first, outputs after their inputs
+            let mut v = others;
+            // outputs were emitted after inputs / mints and before signers etc.; keep it simple: append
+            v.extend(outs);
+            v
+        }
+        1 => outs.into_iter().chain(others).collect(),
+        2 => others.into_iter().rev().chain(outs).collect(),
+        _ => {
+            let mut v = vec![];
+            let mut o = outs.into_iter();
+            let mut r = others.into_iter();
+            loop {
+                let a = o.next();
+                let b = r.next();
+                if a.is_none() && b.is_none() {
+                    break;
+                }
+                v.extend(a);
+                v.extend(b);
+            }
+            v
+        }
+    };
     for b in blocks {
         p.t.extend(b);
     }
@@ -743,10 +767,28 @@ pub struct Scenario {
     pub network: u8,
     pub fee: u64,
     /// value of the Int parameter `q`
-    pub q: i64,
+    #[serde(with = "crate::common::i128_str")]
+    pub q: i128,
+    /// value of the Int parameter `n` (declared only by programs that use it; C02 sweeps it)
+    #[serde(default = "default_n", with = "crate::common::i128_str")]
+    pub n: i128,
+    /// extra lovelace added to the main input's first UTxO (C02 stores: huge holdings)
+    #[serde(default, with = "crate::common::i128_str")]
+    pub extra_lovelace: i128,
     /// which UTxO content the main input gets (index into a small alphabet, see `sem::utxo_alphabet`)
     pub utxo: usize,
     pub labels: Vec<String>,
+}
+
+fn default_n() -> i128 {
+    9
+}
+
+fn ensure_n(prog: &mut GProg) -> IntE {
+    if !prog.params.iter().any(|(n, _)| n == "n") {
+        prog.params.push(("n".into(), ParamTy::Int));
+    }
+    IntE::Param("n".into())
 }
 
 fn int_leaf(g: &mut Gen, point: &str, prog: &mut GProg) -> IntE {
@@ -833,7 +875,7 @@ fn ensure_datum_input(prog: &mut GProg) {
         prog.inputs.push(GInput {
             name: "st".into(),
             many: false,
-            from: Some(AddrE::Party("Sender".into())),
+            from: Some(AddrE::Party(prog.parties[0].clone())),
             min_amount: Some(AssetE::Ada(IntE::Lit(1))),
             r#ref: None,
             redeemer: None,
@@ -848,13 +890,14 @@ fn ensure_datum_input(prog: &mut GProg) {
 
 fn gen_datum(g: &mut Gen, point: &str, prog: &mut GProg) -> Option<DataE> {
     let alts = [
-        "none", "int", "bytes", "bool", "unit", "record", "record-out-of-order", "variant", "variant-unit-case", "list", "map", "spread", "spread-all", "input-datum",
+        "none", "int", "int-n", "bytes", "bool", "unit", "record", "record-out-of-order", "variant", "variant-unit-case", "list", "map", "spread", "spread-all", "input-datum",
         "input-field", "input-list-item", "concat", "nested-list",
     ];
     let q = || DataE::Int(IntE::Param("q".into()));
     Some(match alts[g.pick(point, &alts)] {
         "none" => return None,
         "int" => DataE::Int(int_leaf(g, &format!("{point}.int"), prog)),
+        "int-n" => DataE::List(vec![DataE::Int(ensure_n(prog)), DataE::Int(IntE::Sub(Box::new(IntE::Lit(0)), Box::new(ensure_n(prog))))]),
         "bytes" => DataE::Bytes(BytesE::Hex(vec![0xCA, 0xFE])),
         "bool" => DataE::Bool(true),
         "unit" => DataE::Unit,
@@ -907,13 +950,17 @@ fn gen_datum(g: &mut Gen, point: &str, prog: &mut GProg) -> Option<DataE> {
                 DataE::Int(IntE::InputListItem("st".into(), 2, "limits".into(), Box::new(IntE::Lit(1)))),
             ])
         }
-        "concat" => DataE::Bytes(BytesE::Concat(Box::new(BytesE::Str("ab".into())), Box::new(BytesE::Concat(Box::new(BytesE::Hex(vec![0x63])), Box::new(BytesE::Str("d".into())))))),
+        // strings with strings, bytes with bytes (the two kinds are distinct values of the IR)
+        "concat" => DataE::List(vec![
+            DataE::Bytes(BytesE::Concat(Box::new(BytesE::Str("ab".into())), Box::new(BytesE::Concat(Box::new(BytesE::Str("c".into())), Box::new(BytesE::Str("d".into())))))),
+            DataE::Bytes(BytesE::Concat(Box::new(BytesE::Hex(vec![0xAB])), Box::new(BytesE::Hex(vec![0xCD, 0xEF])))),
+        ]),
         _ => DataE::List(vec![DataE::List(vec![q()]), DataE::List(vec![])]),
     })
 }
 
 fn gen_pay_amount(g: &mut Gen, point: &str, prog: &mut GProg) -> AssetE {
-    let alts = ["ada(q)", "ada(int)", "ada+token", "anyasset", "ada+ada", "local", "paren-sum", "token-only"];
+    let alts = ["ada(q)", "ada(int)", "ada+token", "anyasset", "ada+ada", "local", "paren-sum", "token-only", "ada(n)", "anyasset-n", "ada(q-n)"];
     let q = || IntE::Param("q".into());
     match alts[g.pick(point, &alts)] {
         "ada(q)" => AssetE::Ada(q()),
@@ -934,6 +981,12 @@ fn gen_pay_amount(g: &mut Gen, point: &str, prog: &mut GProg) -> AssetE {
             AssetE::Local("pay".into())
         }
         "paren-sum" => AssetE::Paren(Box::new(AssetE::Add(Box::new(AssetE::Ada(IntE::Lit(1000000))), Box::new(AssetE::Ada(q()))))),
+        "ada(n)" => AssetE::Ada(IntE::Add(Box::new(IntE::Lit(1000000)), Box::new(ensure_n(prog)))),
+        "anyasset-n" => AssetE::Add(
+            Box::new(AssetE::Ada(IntE::Lit(1500000))),
+            Box::new(AssetE::AnyAsset(BytesE::Hex(POLICY_A.to_vec()), BytesE::Str("GOLD".into()), ensure_n(prog))),
+        ),
+        "ada(q-n)" => AssetE::Ada(IntE::Sub(Box::new(q()), Box::new(ensure_n(prog)))),
         _ => {
             let a = ensure_asset_def(prog);
             AssetE::Add(Box::new(AssetE::Tok(a, IntE::Lit(1))), Box::new(AssetE::Ada(IntE::Lit(1200000))))
@@ -987,7 +1040,7 @@ pub fn generate(c: &mut Chooser) -> Scenario {
     let layout = g.pick("layout", &LAYOUTS);
     let network = g.pick("network", &["testnet", "mainnet"]) as u8;
     let fee = [170_000u64, 0, 1_234_567][g.pick("fee", &["170000", "0", "1234567"])];
-    let q = [2_000_000i64, 1, 0][g.pick("q", &["2000000", "1", "0"])];
+    let q = [2_000_000i128, 1, 0][g.pick("q", &["2000000", "1", "0"])];
     let utxo = g.pick("utxo", &["5ada", "2ada+7gold", "50ada+1gold", "two-utxos"]);
 
     // main input
@@ -1027,7 +1080,7 @@ pub fn generate(c: &mut Chooser) -> Scenario {
     prog.outputs.push(GOutput { name: None, optional: false, to: AddrE::Party(sender.to_string()), amount: AssetE::Fees, datum: None });
 
     // mint / burn
-    let mint_kind = g.pick("mint", &["none", "static-asset", "anyasset", "mint+burn", "two-mints"]);
+    let mint_kind = g.pick("mint", &["none", "static-asset", "anyasset", "mint+burn", "two-mints", "anyasset-n", "burn-n"]);
     let (minted, burned): (Option<AssetE>, Option<AssetE>) = match mint_kind {
         0 => (None, None),
         1 => {
@@ -1048,6 +1101,17 @@ pub fn generate(c: &mut Chooser) -> Scenario {
             prog.mints.push(GMint { amount: m.clone(), redeemer: DataE::Unit });
             prog.burns.push(GMint { amount: b.clone(), redeemer: DataE::Unit });
             (Some(m), Some(b))
+        }
+        5 => {
+            let m = AssetE::AnyAsset(BytesE::Hex(POLICY_B.to_vec()), BytesE::Str("SILVER".into()), ensure_n(&mut prog));
+            prog.mints.push(GMint { amount: m.clone(), redeemer: DataE::Unit });
+            (Some(m), None)
+        }
+        6 => {
+            let a = ensure_asset_def(&mut prog);
+            let b = AssetE::Tok(a, ensure_n(&mut prog));
+            prog.burns.push(GMint { amount: b.clone(), redeemer: DataE::Unit });
+            (None, Some(b))
         }
         _ => {
             let a = ensure_asset_def(&mut prog);
@@ -1087,7 +1151,7 @@ pub fn generate(c: &mut Chooser) -> Scenario {
     }
 
     // validity
-    match g.pick("validity", &["none", "until-lit", "since+until", "until-param", "tip+offset", "time_to_slot", "slot_to_time-roundtrip"]) {
+    match g.pick("validity", &["none", "until-lit", "since+until", "until-param", "tip+offset", "time_to_slot", "slot_to_time-roundtrip", "until-n", "since-n", "time_to_slot-n"]) {
         0 => {}
         1 => prog.until = Some(IntE::Lit(90_000)),
         2 => {
@@ -1100,6 +1164,9 @@ pub fn generate(c: &mut Chooser) -> Scenario {
             prog.until = Some(IntE::Add(Box::new(IntE::TipSlot), Box::new(IntE::Lit(600))));
         }
         5 => prog.until = Some(IntE::TimeToSlot(Box::new(IntE::Lit(1_700_000_123_456)))),
+        7 => prog.until = Some(ensure_n(&mut prog)),
+        8 => prog.since = Some(IntE::Sub(Box::new(ensure_n(&mut prog)), Box::new(IntE::Lit(1)))),
+        9 => prog.until = Some(IntE::TimeToSlot(Box::new(IntE::Add(Box::new(IntE::Lit(1_700_000_000_000)), Box::new(ensure_n(&mut prog)))))),
         _ => prog.until = Some(IntE::TimeToSlot(Box::new(IntE::SlotToTime(Box::new(IntE::Lit(7777)))))),
     }
 
@@ -1112,7 +1179,7 @@ pub fn generate(c: &mut Chooser) -> Scenario {
     }
 
     // metadata
-    match g.pick("metadata", &["none", "int", "string", "bytes-param", "two", "int-expr"]) {
+    match g.pick("metadata", &["none", "int", "string", "bytes-param", "two", "int-expr", "int-n"]) {
         0 => {}
         1 => prog.metadata = vec![(IntE::Lit(674), MetaE::Int(IntE::Lit(42)))],
         2 => prog.metadata = vec![(IntE::Lit(674), MetaE::Str("hello metadata".into()))],
@@ -1121,7 +1188,11 @@ pub fn generate(c: &mut Chooser) -> Scenario {
             prog.metadata = vec![(IntE::Lit(1), MetaE::Bytes(BytesE::Param("memo".into())))];
         }
         4 => prog.metadata = vec![(IntE::Lit(2), MetaE::Str("b".into())), (IntE::Lit(1), MetaE::Int(IntE::Param("q".into())))],
-        _ => prog.metadata = vec![(IntE::Add(Box::new(IntE::Lit(600)), Box::new(IntE::Lit(74))), MetaE::Int(IntE::Sub(Box::new(IntE::Lit(0)), Box::new(IntE::Lit(9)))))],
+        5 => prog.metadata = vec![(IntE::Lit(674), MetaE::Int(IntE::Sub(Box::new(IntE::Lit(0)), Box::new(IntE::Lit(9)))))],
+        _ => {
+            let n = ensure_n(&mut prog);
+            prog.metadata = vec![(IntE::Lit(7), MetaE::Int(n))];
+        }
     }
 
     // references / collateral
@@ -1146,8 +1217,8 @@ pub fn generate(c: &mut Chooser) -> Scenario {
         ensure_policy(&mut prog);
         ensure_asset_def(&mut prog);
     }
-    prog.body_rotation = g.pick("block-order", &["source-order", "rotated-1", "rotated-2", "rotated-3"]);
+    prog.body_rotation = g.pick("block-order", &["declarations-then-outputs", "outputs-first", "reversed-then-outputs", "interleaved"]);
 
     let labels = g.labels.clone();
-    Scenario { prog, layout, network, fee, q, utxo, labels }
+    Scenario { prog, layout, network, fee, q, n: 9, extra_lovelace: 0, utxo, labels }
 }
